@@ -104,7 +104,7 @@ func runC03(w *World, r *Report, tier string) {
 	}
 	ruleCacheKey(w, r, cl)
 	ruleNoSkip(w, r, "integrate.ChangeExtendedSpatialIdsZoom")
-	ruleVerbatim(w, r, "integrate.ChangeExtendedSpatialIdsZoom")
+	ruleVerbatim(w, r, "integrate.ChangeExtendedSpatialIdsZoom", "integrate.ChangeSpatialIdsZoom")
 	rulePackKey(w, r, nil)
 	ruleSameZoom(w, r, "integrate.ChangeExtendedSpatialIdsZoom")
 	guardRows(w, r, "C03")
@@ -132,7 +132,7 @@ func runC04(w *World, r *Report, tier string) {
 	ruleNoSkip(w, r, "integrate.MergeExtendedSpatialIds")
 	ruleUnitZoom(w, r)
 	ruleCacheKey(w, r, cl)
-	ruleVerbatim(w, r, "integrate.MergeExtendedSpatialIds")
+	ruleVerbatim(w, r, "integrate.MergeExtendedSpatialIds", "integrate.MergeSpatialIds")
 	guardRows(w, r, "C04")
 }
 
